@@ -833,6 +833,9 @@ func poolHygiene(c *core.Ctx) {
 			if rn := astx.RecvNamed(funcOf(info, fd)); rn != nil && rn.Obj() == cp.Obj() {
 				owner = true
 			}
+			if strings.HasPrefix(p.StoodInFor(fd), cp.Obj().Name()+".") {
+				owner = true // one of its methods, now spelled as a function taking the pool
+			}
 			c.Check(owner, "who-may-call/"+core.FuncName(fd)+"/"+op, call.Pos(), "sync.Pool %s is used in %s (only compressionPool's own methods may touch the (de)compressor pools)", op, core.FuncName(fd))
 		}
 	}
@@ -914,7 +917,20 @@ func poolHygiene(c *core.Ctx) {
 			c.Unresolved(name, "not found")
 			continue
 		}
-		obj := info.Defs[fd.Type.Params.List[0].Names[0]]
+		// the pooled object: the interface-typed parameter (the pool itself may have become a leading
+		// parameter when the method was turned into a function)
+		var obj types.Object
+		for _, fl := range fd.Type.Params.List {
+			for _, nm := range fl.Names {
+				if o := info.Defs[nm]; o != nil && obj == nil && types.IsInterface(o.Type()) {
+					obj = o
+				}
+			}
+		}
+		if obj == nil {
+			c.Undecided("put/"+name, fd.Pos(), "no interface-typed parameter (the object being recycled)")
+			continue
+		}
 		var probs []string
 		puts := 0
 		astx.ForEachExit(info, fd.Body, func(s *astx.State, kind astx.ExitKind, ret *ast.ReturnStmt) {
@@ -1020,6 +1036,33 @@ func poolHygiene(c *core.Ctx) {
 			}
 			if getFailed && putsHi != 0 {
 				probs = append(probs, "an object whose get (Reset) failed is handed to put, which Closes and pools it: a decompressor that never saw a valid header is not usable")
+			}
+			// the put helper folded into this function: a path on which the object's Close failed drops it
+			// (no Put) - that is the helper's own contract, checked above
+			closeFailed := false
+			for gi, st := range s.Steps {
+				var as *ast.AssignStmt
+				switch x := st.(type) {
+				case *ast.AssignStmt:
+					as = x
+				}
+				if as == nil || len(as.Rhs) != 1 || len(as.Lhs) != 1 {
+					continue
+				}
+				call, ok := astx.Unparen(as.Rhs[0]).(*ast.CallExpr)
+				if !ok || !isMethodNamed(info, call, "Close") || len(call.Args) != 0 {
+					continue
+				}
+				errObj := astx.ObjOf(info, as.Lhs[0])
+				for _, tf := range s.Taken {
+					l, op, r, ok := astx.CompareOp(tf.Expr)
+					if ok && tf.At > gi && astx.IsNil(info, r) && errObj != nil && astx.ObjOf(info, l) == errObj && (op == token.NEQ) == tf.Pol {
+						closeFailed = true
+					}
+				}
+			}
+			if closeFailed && putsLo == 0 && putsHi == 0 {
+				return
 			}
 			if !getFailed && (putsLo != 1 || putsHi != 1) {
 				probs = append(probs, fmt.Sprintf("a path after a successful get passes %d..%d put calls, helpers included (the object leaks or is pooled twice)", putsLo, putsHi))
